@@ -16,7 +16,8 @@ class Sink:
     def __init__(self, where: str, exps: Optional[Dict[str, object]] = None, dec: Optional[int] = 0,
                  needs: Sequence[str] = (), fn: Optional[str] = None, sign: Optional[int] = None,
                  allow_zero: bool = False, forbids: Sequence[str] = (), note: str = "", deps_only: bool = False,
-                 skip_top: bool = False, data_needs: Sequence[str] = (), data_forbids: Sequence[str] = ()):
+                 skip_top: bool = False, data_needs: Sequence[str] = (), data_forbids: Sequence[str] = (),
+                 together: Sequence = ()):
         self.where = where
         self.exps = {k: (v if v == "any" else Fraction(v)) for k, v in (exps or {}).items()}
         self.dec = dec
@@ -29,6 +30,7 @@ class Sink:
         self.deps_only = deps_only
         self.data_needs = tuple(data_needs)      # atoms that must be factors of the value itself (not only control dependences)
         self.data_forbids = tuple(data_forbids)
+        self.together = tuple(together)      # (a, b): every term that has factor a also has factor b
         self.skip_top = skip_top   # other stores of unknown shape into the same column (initialisation, generic copies) are ignored
 
 
@@ -174,6 +176,14 @@ def run_cases(ctx, rule: str, cases: List[Case], aspects=("units", "base", "par"
                 if s_ is not sh.TOP and not sh.is_bad(s_):
                     for m in s_:
                         datafacs |= set(m.facs)
+            for a_, b_ in sink.together:
+                for v, st in got:
+                    s_ = shape_of(v)
+                    if s_ is sh.TOP or sh.is_bad(s_):
+                        continue
+                    for m in s_:
+                        if a_ in m.facs and b_ not in m.facs:
+                            problems.append(f"term {m!r} has the factor {a_} without {b_}")
             for need in sink.data_needs:
                 if need not in datafacs:
                     problems.append(f"value is not computed from {need}")
